@@ -167,6 +167,9 @@ func expect(c Case) ([]*hx.N, *stats, error) {
 	if c.After != "" {
 		m.st.add("after-failure:" + c.After + "-engine")
 	}
+	if c.Proc {
+		m.st.add("page-rewritten-by-a-node-processor")
+	}
 	for _, v := range c.Data {
 		switch v.K {
 		case "[]srec", "[]*srec", "[]sstr", "[]*sstr":
